@@ -312,7 +312,17 @@ def eval_e2e(case, rng):
     # B: corrupted packets = (a) inserted damaged copies of real packets placed before the original, (b) real packets whose checksum is damaged
     out_items = []
     nb = 0
-    mode = rng.choice(["insert", "insert", "corrupt-real", "both"])
+    mode = rng.choice(["insert", "insert", "corrupt-real", "both", "flood"])
+    if mode == "flood":
+        # a capture with many bad packets (a flapping link, a broken offload engine): 20-60 damaged copies of an early packet come first, then real packets lose their
+        # checksum at a higher rate - the verdict on the 50th bad packet is the verdict on the first
+        src = next((it for it in items if (it.seg is not None and getattr(it.seg, "payload", b"")) or quic), None)
+        for _ in range(rng.randrange(20, 60) if src is not None else 0):
+            fr = bytearray(src.frame)
+            end = 14 + (40 + int.from_bytes(fr[18:20], "big") if ep.v6 else int.from_bytes(fr[16:18], "big"))
+            fr[end - 1 - rng.randrange(max(1, min(8, end - (14 + (40 if ep.v6 else 20) + (8 if quic else 20)))))] ^= 1 << rng.randrange(8)
+            out_items.append((scene.Item(bytes(fr), dir=src.dir, tag="bad"), True))
+            nb += 1
     for it in items:
         has_payload = (it.seg is not None and getattr(it.seg, "payload", b"")) or quic
         if has_payload and mode in ("insert", "both") and rng.random() < 0.25:
@@ -321,7 +331,7 @@ def eval_e2e(case, rng):
             fr[end - 1 - rng.randrange(max(1, min(8, end - (14 + (40 if ep.v6 else 20) + (8 if quic else 20)))))] ^= 1 << rng.randrange(8)      # payload byte flipped, checksum left as it was -> wrong
             out_items.append((scene.Item(bytes(fr), dir=it.dir, tag="bad"), True))
             nb += 1
-        if has_payload and mode in ("corrupt-real", "both") and rng.random() < 0.12:
+        if has_payload and mode in ("corrupt-real", "both", "flood") and rng.random() < (0.3 if mode == "flood" else 0.12):
             fr = bytearray(it.frame)
             l4off = 14 + (40 if ep.v6 else 20)
             coff = l4off + (6 if quic else 16)
